@@ -199,6 +199,8 @@ def run(ctx):
                         "paper consequences of the group axioms, the pairing rule and trace cyclicity"]
     ctx.assumptions += ["numpy: (rot * M).sum(axis=(1,2)) is the Frobenius product per operator; clip, arccos, arange",
                         "cos / sin of multiples of 15 degrees and the inverse of a constant 3x3 matrix, exact in Q(sqrt 2, sqrt 3, pi)"]
+    from xfabsa import numeric as _NH
+    _NH.hazard_rule(ctx, 'C12')
     return ("permutations(s) and rotations(s) evaluated by E3 for s = 1..7 and outside: seven integer tables checked exactly "
             "(orders 1,2,4,8,6,12,24, unimodular, closed over all pairs); every rot[i] an exact proper rotation paired with "
             "perm[i] on a basis of conforming B (hexagonal family in Q(sqrt 3)); ROTATIONS evaluated and compared entry-wise; "
